@@ -3,6 +3,7 @@
 -/
 import HLV.Logic.Order
 import HLV.Props.HoldFamily
+import HLV.Logic.OrderOwned
 namespace HLV
 
 -- @theorem C08_sorted_order_is_strictly_increasing : the lock list of a duplicate-free sorting collection (any length, any listing order) is strictly increasing in address
@@ -37,6 +38,26 @@ theorem C08_valid_flat_sessions_satisfy_the_discipline (C : Ctx) (ses : Session)
     (hb : ∀ b ∈ ses.body, stepOK (C.shape ses.coll) ses.mode b) :
     SesOK (some C.W.addr) C ses :=
   ⟨hl, shapeOK_addr C.W _ hno hv, hf, hb⟩
+
+-- @theorem C08_owned_groups_are_ordered_as_one_unit : with owned groups (an OwnedLockCollection nested in sorting / retrying collections in any way) every session on a collection accepted by its checked constructor obeys the rank discipline for the rank "address of the unit, then position inside the unit": whenever the thread blocks on lock x every lock it holds belongs to a unit with a smaller address, or to the same owned group and comes earlier in that group's own order — so two sorting acquisitions take their common units in the same relative order and an owned group is never interleaved with other units
+theorem C08_owned_groups_are_ordered_as_one_unit (n : Nat) (C : Ctx) (M : Nat) (rank : LockId → Nat) (hM : 0 < M)
+    (prog : List Stmt)
+    (hses : ∀ st ∈ prog, match st with
+      | .ses ses => lockable (C.shape ses.coll) = true ∧ FitOut C.W M rank (C.shape ses.coll) ∧
+          Valid C.W (C.shape ses.coll) ∧ ses.exit ≠ .forget ∧
+          ∀ b ∈ ses.body, stepOK (C.shape ses.coll) ses.mode b
+      | _ => True)
+    (u : UserSt) {tr₁ tr₂ : List (Op × Resp)} {m : Mode} {x : LockId} {r : Resp} {out : Outcome Unit UserSt}
+    (hp : Path (program C prog u) (tr₁ ++ (.acq m true x, r) :: tr₂) out)
+    (ha : Admissible (HoldSpec n (some rank)) {} tr₁) :
+    ∀ y m', 0 < (ghostAfter (HoldSpec n (some rank)) {} tr₁).held y m' → rank y < rank x := by
+  have hok : ProgOK (some rank) C prog := by
+    intro st hst
+    have := hses st hst
+    cases st with
+    | ses ses => exact ⟨this.1, shapeOK_rank hM _ this.2.1 this.2.2.1, this.2.2.2.1, this.2.2.2.2⟩
+    | _ => trivial
+  exact (program_op_ok n _ C prog hok u hp ha).2
 
 -- @theorem C08_nested_collections_contribute_their_leaves : a boxed, ref or retrying collection nested in a sorting collection hands its member locks (not itself) to the enclosing sort; an owned collection hands itself as one unit
 theorem C08_nested_collections_contribute_their_leaves (W : World) (s : Shape) (a : Nat) :
